@@ -1,6 +1,6 @@
 (* C02 -- Every accepted datagram re-encodes to identical bytes (decoding is lossless). *)
 From CoapV Require Import Base Header Packet WireSpec Encode Decode PacketOps Suite01
-  proofs.PWire proofs.PEnc proofs.PDec proofs.P01.
+  proofs.PWire proofs.PEnc proofs.PDec proofs.P01 proofs.P01c.
 
 (* canonb bs bs' : bs = bs', or bs = bs' ++ [0xFF], or a 0.00 message whose content after
    the options (marker + payload) was dropped -- exactly the differences C02 permits.
@@ -15,6 +15,11 @@ Theorem C02_injective : forall pol b1 b2 p, bytes_wf b1 -> bytes_wf b2 ->
   exists c, canonb b1 c = true /\ canonb b2 c = true.
 Proof. exact decode_injective. Qed.
 Print Assumptions C02_injective.
+
+(* the model passes the suite-20 oracle on every byte string and policy *)
+Theorem C02_model_passes_oracle : forall s pol bs, rd_case20 s = Some (pol, bs) -> bytes_wf bs -> verdict20 s (run20 s) = true.
+Proof. exact model_passes_oracle20. Qed.
+Print Assumptions C02_model_passes_oracle.
 
 Example C02_example :
   let bs := [72; 2; 18; 52; 1;2;3;4;5;6;7;8; 209; 245; 7; 255; 1; 2] in
